@@ -405,6 +405,11 @@ impl FlatMaTree {
             return None;
         };
 
+        // The simple table decoder does not track previously decoded channels.
+        if decision_prop >= 16 {
+            return None;
+        }
+
         let mut state: Option<(Predictor, i32, u32)> = None;
         let mut cluster_table = Vec::with_capacity(indices.len());
         for &index in &**indices {
